@@ -28,6 +28,19 @@ def run(prop, spec, run_):
         fam_cas.run_streams(run_, {"cas.rt", "cas.tape", "cas.corrupt"},
                             {"cas.rt": 120 if q else 1200, "cas.tape": 120 if q else 1200, "cas.corrupt": 300 if q else 4000},
                             fam_cas.LENS_QUICK if q else fam_cas.LENS_THOROUGH, corpus("cas_files"))
+    elif prop in ("C07", "C08", "C15"):
+        import fam_dsk
+        q = tier == "quick"
+        if prop == "C08":
+            want = {"dsk.write", "dsk.geom", "dsk.fill"}
+            counts = {"dsk.write": 30 if q else 400, "dsk.fill": 2 if q else 12, "dsk.sweep": 0 if q else 1}
+        elif prop == "C07":
+            want = {"dsk.rt", "dsk.frag", "dsk.corrupt"}
+            counts = {"dsk.rt": 30 if q else 300, "dsk.frag": 40 if q else 500, "dsk.corrupt": 120 if q else 2000, "dsk.sweep": 0 if q else 1}
+        else:
+            want = {"dsk.fill", "dsk.write", "dsk.geom"}
+            counts = {"dsk.fill": 5 if q else 40, "dsk.write": 12 if q else 100}
+        fam_dsk.run_streams(run_, want, counts, thorough=not q, corpus=corpus("dsk_histories"))
     else:
         raise KeyError(prop)
 
